@@ -24,8 +24,16 @@ func waterProjects(c *core.Ctx, n int, years int, salt int64) []*gen.Project {
 		if i%7 == 6 {
 			o.MinLayers, o.MaxLayers = 1, 2
 		}
+		// sub-step counts: a rain ladder sweeps the count of sub-steps over a contiguous range (bare or cropped, no
+		// irrigation on top of it); every eighth project
+		if i%8 == 0 {
+			o.RainLadder, o.HeavyRain, o.Schedules, o.Measure = true, false, false, false
+			if o.Years < 2 {
+				o.Years = 2
+			}
+		}
 		p := gen.Random(r, fmt.Sprintf("w%d_%d", c.Seed, i), o)
-		p.Arms = []string{fmt.Sprintf("heavyRain=%v stones=%v drain=%v shallowGW=%v schedules=%v measure=%v bare=%v", o.HeavyRain, o.Stones, o.Drain, o.ShallowGW, o.Schedules, o.Measure, o.NoCrops)}
+		p.Arms = []string{fmt.Sprintf("heavyRain=%v stones=%v drain=%v shallowGW=%v schedules=%v measure=%v bare=%v rainLadder=%v", o.HeavyRain, o.Stones, o.Drain, o.ShallowGW, o.Schedules, o.Measure, o.NoCrops, o.RainLadder)}
 		ps = append(ps, p)
 	}
 	return ps
